@@ -19,6 +19,8 @@ func c19(c *Ctx) {
 	r.Rule("C19.single-frame", "the {server, uncompressed} rendering NewPreparedMessage snapshots the payload from is a single frame: every WriteMessage path that knows isServer and newCompressionWriter == nil emits exactly one final frame and never streams through NextWriter")
 	preparedSingleFrame(c, "C19.single-frame")
 	r.Rule("C19.cache", "PreparedMessage.frames is accessed only between pm.mu.Lock and Unlock; frame.data is assigned only inside the once.Do closure and returned only after once.Do on that frame")
+	r.Rule("C19.one-frame-per-write", "every call of Conn.write passes the frame type of the bytes it writes, so a prepared close message is recorded as sent whichever API wrote it (same rule as C09.opcode-agrees)")
+	c.borrow(c09, map[string]string{"C09.opcode-agrees": "C19.one-frame-per-write", "C09.protocol": "C19.one-frame-per-write"})
 	r.Rule("C19.write-path", "WritePreparedMessage writes the cached bytes through Conn.write (lock, sticky-error re-check, close-sent recording: C09 rules on write) with the frame type frame() returned, inside the isWriting bracket, and returns its error")
 	r.Table("Conn fields read while rendering that cannot influence the bytes: writeBuf (fixed size in frame()), mu, conn (private), writePool (nil), writeDeadline, writeErr, isWriting, writer, writeBufSize")
 
@@ -342,6 +344,75 @@ func c19(c *Ctx) {
 			}
 		})
 		r.Check("C19.cache", shortFn(frame), "mutex-and-once", frame.Pos(), ok && n >= 2, why)
+		// the cached bytes are immutable once rendered: a load of preparedFrame.data is only returned, sliced or
+		// measured; what frame() returns is only sliced, measured or handed to Conn.write
+		{
+			okI, whyI := true, "cached frame bytes are only returned, sliced, measured or passed to Conn.write"
+			nUse := 0
+			var benign func(v ssa.Value, fromCall bool, depth int) (bool, ssa.Instruction)
+			benign = func(v ssa.Value, fromCall bool, depth int) (bool, ssa.Instruction) {
+				if depth > 4 {
+					return false, nil
+				}
+				for _, ref := range *v.Referrers() {
+					switch u := ref.(type) {
+					case *ssa.Return, *ssa.DebugRef:
+					case *ssa.Slice:
+						if u.X != v {
+							return false, u
+						}
+						if ok, at := benign(u, fromCall, depth+1); !ok {
+							return false, at
+						}
+					case *ssa.Phi:
+						if ok, at := benign(u, fromCall, depth+1); !ok {
+							return false, at
+						}
+					case *ssa.Store:
+						// storing the slice value itself somewhere (pm.data = frameData[k:]) keeps the bytes untouched; storing through it does not occur here (that needs an IndexAddr)
+						if u.Val != v {
+							return false, u
+						}
+					case *ssa.BinOp: // comparison with nil
+					case ssa.CallInstruction:
+						cc := u.Common()
+						if bi, isB := cc.Value.(*ssa.Builtin); isB && (bi.Name() == "len" || bi.Name() == "cap") {
+							continue
+						}
+						if f := cc.StaticCallee(); f != nil && f == wr {
+							continue
+						}
+						return false, u
+					default:
+						return false, u
+					}
+				}
+				return true, nil
+			}
+			for _, fn := range c.P.FuncList {
+				for _, b := range fn.Blocks {
+					for _, in := range b.Instrs {
+						switch v := in.(type) {
+						case *ssa.UnOp:
+							if fa, isFA := v.X.(*ssa.FieldAddr); isFA && fieldOf(fa) == pfData {
+								nUse++
+								if okB, at := benign(v, false, 0); !okB {
+									okI, whyI = false, "the cached frame bytes (preparedFrame.data) loaded in "+shortFn(fn)+" are used at "+c.P.Pos(at.Pos())+" in a way that may modify or expose them: connections write these bytes concurrently without a lock, they must not change after once.Do"
+								}
+							}
+						case *ssa.Extract:
+							if call, isCall := v.Tuple.(*ssa.Call); isCall && call.Call.StaticCallee() == frame && v.Index == 1 {
+								nUse++
+								if okB, at := benign(v, true, 0); !okB {
+									okI, whyI = false, "the frame bytes returned by frame() are used in "+shortFn(fn)+" at "+c.P.Pos(at.Pos())+" in a way that may modify them"
+								}
+							}
+						}
+					}
+				}
+			}
+			r.Check("C19.cache", shortFn(frame), "cached-bytes-immutable", frame.Pos(), okI && nUse >= 2, whyI)
+		}
 		// writers of preparedFrame.data
 		for _, st := range c.P.FieldStoreSites(pfData) {
 			// a helper the closure calls (and nothing else does) writes on its behalf
